@@ -269,3 +269,176 @@ Proof.
          { destruct (j5 _ _ H Sd) as [X|[X _]]; [congruence|]. unfold pristine in X. intuition. }
          ds s. prj. subst. exact D.
 Qed.
+
+(* ---------- rejoin_after_error ---------- *)
+Lemma ogl_fields : forall s, let s' := fst (on_group_leave s) in
+  start_d s' = start_d s /\ stopping s' = stopping s /\ stop_requested s' = stop_requested s /\ rejoin_needed s' = rejoin_needed s /\
+  hb_running s' = hb_running s /\ timers s' = timers s /\ gens s' = gens s /\ escaped s' = escaped s /\ dc s' = dc s /\ is_group s' = is_group s.
+Proof. intros s. unfold on_group_leave. destruct (is_group s); ds s; cbn; repeat split; reflexivity. Qed.
+
+Lemma fatal_J : forall r k s, Jcore r s -> start_d s <> None \/ stopping s = true ->
+  Jcore r (fst (fatal k s)) /\ stopping (fst (fatal k s)) = true.
+Proof.
+  intros r k s H Hn. unfold fatal, seq.
+  destruct (on_group_leave s) as [s1 o1] eqn:E.
+  pose proof (ogl_J r s H) as [J1 C1]. pose proof (ogl_fields s) as (F1 & F2 & _). rewrite E in *. cbn [fst] in *.
+  pose proof (do_stop_J r (-1) (Some k) s1 J1) as [J2 Q].
+  destruct (do_stop (-1) (Some k) s1) as [s2 o2]. cbn [fst] in *. split; auto.
+  destruct Q as [Q|[(Q1 & Q2 & _)|(_ & Q & _)]]; auto; [|congruence].
+  rewrite F1 in Q1. rewrite F2 in Q2. destruct Hn; congruence.
+Qed.
+
+Lemma schedule_rejoin_J : forall r d s, stopping s = false -> Jcore r s ->
+  let s' := fst (schedule_rejoin d s) in
+  Jcore r s' /\ rejoin_needed s' = true /\ timers s' <> [] /\ stopping s' = false.
+Proof.
+  intros r d s Hs H. unfold schedule_rejoin. ds s. prj. subst. destruct dc0 as [|id|]; unf; prj.
+  - repeat split; try discriminate. jgo.
+  - repeat split; [jgo|]. destruct H. prj. intros ->. apply (j21 id eq_refl).
+  - destruct H. prj. exfalso. apply j22; auto.
+Qed.
+
+Lemma resched_J : forall r d s, Jcore r s ->
+  let s' := fst (resched d s) in
+  Jcore r s' /\ (stopping s' = true \/ (rejoin_needed s' = true /\ timers s' <> [] /\ stopping s' = false)).
+Proof.
+  intros r d s H. unfold resched. destruct (stopping s) eqn:Hs.
+  - cbn [fst]. auto.
+  - pose proof (schedule_rejoin_J r d s Hs H) as (A & B & C & D). split; auto.
+Qed.
+
+Lemma set_member_J : forall r s, Jcore r s -> consumers s = [] -> Jcore r (set_member 0 s).
+Proof. intros r s H C. ds s. prj. subst. jgo. Qed.
+
+Lemma rejoin_after_error_J : forall r k s, Jcore r s -> start_d s <> None \/ stopping s = true ->
+  let s' := fst (rejoin_after_error k s) in
+  Jcore r s' /\ (stopping s' = true \/ (rejoin_needed s' = true /\ timers s' <> [] /\ stopping s' = false)).
+Proof.
+  intros r k s H Hn.
+  assert (OG : forall d, let s' := fst ((on_group_leave ;; resched d) s) in
+           Jcore r s' /\ (stopping s' = true \/ (rejoin_needed s' = true /\ timers s' <> [] /\ stopping s' = false))).
+  { intros d. unfold seq. destruct (on_group_leave s) as [s1 o1] eqn:E. pose proof (ogl_J r s H) as [J1 _]. rewrite E in J1. cbn [fst] in J1.
+    pose proof (resched_J r d s1 J1) as X. destruct (resched d s1). exact X. }
+  destruct k; cbn [rejoin_after_error].
+  - apply resched_J; auto.
+  - unfold seq, emit. pose proof (resched_J r DRetry s H) as X. destruct (resched DRetry s). exact X.
+  - unfold seq, emit. pose proof (resched_J r DRetry s H) as X. destruct (resched DRetry s). exact X.
+  - apply OG.
+  - unfold seq, upd. destruct (on_group_leave s) as [s1 o1] eqn:E. pose proof (ogl_J r s H) as [J1 C1]. rewrite E in J1, C1. cbn [fst] in J1, C1.
+    pose proof (resched_J r DRetry _ (set_member_J r s1 J1 C1)) as X. destruct (resched DRetry (set_member 0 s1)). exact X.
+  - unfold seq, upd. destruct (on_group_leave s) as [s1 o1] eqn:E. pose proof (ogl_J r s H) as [J1 C1]. rewrite E in J1, C1. cbn [fst] in J1, C1.
+    pose proof (resched_J r DRetry _ (set_member_J r s1 J1 C1)) as X. destruct (resched DRetry (set_member 0 s1)). exact X.
+  - apply resched_J; auto.
+  - unfold seq, emit. destruct (on_group_leave s) as [s1 o1] eqn:E. pose proof (ogl_J r s H) as [J1 _]. rewrite E in J1. cbn [fst] in J1.
+    pose proof (resched_J r DFatal s1 J1) as X. destruct (resched DFatal s1). exact X.
+  - apply resched_J; auto.
+  - destruct (stopping s) eqn:Hs; [cbn [fst]; auto|]. pose proof (fatal_J r KCancelled s H Hn) as [A B]. auto.
+  - pose proof (fatal_J r KNonKafka s H Hn) as [A B]. auto.
+Qed.
+
+(* ---------- generator bookkeeping at the level of Inv ---------- *)
+Lemma take_gen_J : forall (p : gen -> bool) s g rest, Jcore None s -> take_first p (gens s) = Some (g, rest) ->
+  Jcore (Some (g_id g, adv g)) (set_gens rest s) /\ (stopping s = false -> rejoin_needed s = true /\ rest = []) /\
+  (start_d s <> None \/ stopping s = true).
+Proof.
+  intros p s g rest H T.
+  pose proof (take_first_cnt _ p adv _ _ _ T) as (_ & Hc & _).
+  assert (NP : start_d s <> None \/ stopping s = true).
+  { destruct (start_d s) eqn:Sd; [left; discriminate|]. destruct (j5 _ _ H Sd) as [X|[X _]]; [auto|].
+    unfold pristine in X. destruct X as (X & _). rewrite X in T. discriminate. }
+  assert (SG : stopping s = false -> rejoin_needed s = true /\ rest = [] /\ rejoin_d s = Some (g_id g)).
+  { intros Hs. destruct (j8 _ _ H Hs) as [[X _]|(g0 & X & Y)]; [rewrite X in T; discriminate|].
+    rewrite X in T. apply take_first_single in T. destruct T; subst. repeat split; auto.
+    apply (j13 _ _ H Hs). rewrite X. discriminate. }
+  split; [|split; [intros Hs; destruct (SG Hs) as (A & B & _); auto|exact NP]].
+  ds s. prj. destruct (adv g) eqn:Ag; cbn [b2n] in Hc; jgo.
+  all: try (intros E; destruct (SG E) as (_ & ? & ?); auto).
+  all: try (intros E; right; exists g; intuition (subst; auto; congruence)).
+  all: try (intros E1 E2; destruct (SG E1) as (_ & ? & _); congruence).
+Qed.
+
+Lemma Stab_eq : forall s s', stab_eq s s' -> Stab s -> Stab s'.
+Proof. unfold stab_eq, Stab. intros s s' (A & B & C) H. rewrite A, B, C. exact H. Qed.
+
+Lemma gen_end_Inv : forall x s, Jcore (Some x) s -> Stab s ->
+  stopping s = true \/ stop_requested s = true \/ timers s <> [] \/ (rejoin_needed s = false /\ hb_running s = true) \/ escaped s = true ->
+  Inv (fst (gen_end s)).
+Proof.
+  intros x s H St P. constructor.
+  - apply (gen_end_J (Some x)); [discriminate|exact H].
+  - ds s. exact St.
+  - ds s. unfold Prog, progress; unf; prj. intuition congruence.
+Qed.
+
+Lemma add_gen_Inv : forall gid b g s, Jcore (Some (gid, b)) s -> Stab s -> g_id g = gid ->
+  (adv g = true -> consumers s = [] /\ (b = true \/ stopping s = false)) ->
+  (stopping s = false -> rejoin_needed s = true) -> Inv (add_gen g s).
+Proof.
+  intros gid b g s H St Hg Ha Hn. constructor.
+  - eapply add_gen_J; eauto.
+  - ds s. exact St.
+  - ds s. unfold Prog, progress; unf; prj. intros. left. discriminate.
+Qed.
+
+Lemma rae_Stab_Prog : forall s, stopping s = true \/ (rejoin_needed s = true /\ timers s <> [] /\ stopping s = false) -> Stab s /\ Prog s.
+Proof. intros s H. unfold Stab, Prog, progress. split; intros; intuition congruence. Qed.
+
+Lemma gen_fail_Inv : forall x k s, Jcore (Some x) s -> Stab s -> start_d s <> None \/ stopping s = true -> Inv (fst (gen_fail k s)).
+Proof.
+  intros x k s H St Hn. unfold gen_fail, seq.
+  pose proof (gen_end_J (Some x) s ltac:(discriminate) H) as J1.
+  destruct (gen_end s) as [s1 o1] eqn:E. cbn [fst] in J1.
+  assert (F : start_d s1 = start_d s /\ stopping s1 = stopping s /\ stab_eq s s1).
+  { unfold gen_end, upd in E. inversion E. ds s. cbn. unfold stab_eq; cbn. auto. }
+  destruct F as (F1 & F2 & F3).
+  destruct (is_kafka k).
+  - pose proof (rejoin_after_error_J None k s1 J1 ltac:(rewrite F1, F2; exact Hn)) as [A B].
+    destruct (rejoin_after_error k s1) as [s2 o2]. cbn [fst] in *. destruct (rae_Stab_Prog _ B). constructor; auto.
+  - unfold upd. cbn [fst]. constructor.
+    + ds s1. prj. destruct J1. constructor; prj; unfold pristine in *; prj; auto.
+      intros ->. rewrite F1, F2 in Hn. destruct Hn; [congruence|auto].
+    + apply (Stab_eq s1); [ds s1; unfold stab_eq; cbn; auto|]. apply (Stab_eq s); auto.
+    + ds s1. unfold Prog. prj. congruence.
+Qed.
+
+(* ---------- the event handlers ---------- *)
+Lemma with_gen_Inv : forall ph (k : gen -> act) s, Inv s ->
+  (forall g rest, take_first (awaits ph) (gens s) = Some (g, rest) -> Inv (fst (k g (set_gens rest s)))) ->
+  Inv (fst (with_gen ph k s)).
+Proof.
+  intros ph k s H K. unfold with_gen. destruct (take_first (awaits ph) (gens s)) as [[g rest]|] eqn:T; [apply K; auto|exact H].
+Qed.
+
+Lemma coord_retry_end_Inv : forall x d s, Jcore (Some x) s -> Stab s -> Inv (fst ((coord_retry d ;; gen_end) s)).
+Proof.
+  intros x d s H St. unfold seq, coord_retry, new_timer.
+  change (fst (let (s2, o2) := gen_end (set_timers ((next_timer s, TCoordRetry) :: timers s) (set_next_timer (next_timer s + 1) s)) in
+               (s2, [OSched TCoordRetry d (next_timer s)] ++ o2)))
+    with (fst (gen_end (set_timers ((next_timer s, TCoordRetry) :: timers s) (set_next_timer (next_timer s + 1) s)))).
+  apply (gen_end_Inv x).
+  - ds s. jgo.
+  - ds s. exact St.
+  - right. right. left. ds s. discriminate.
+Qed.
+
+Lemma set_gens_stab : forall l s, Stab s -> Stab (set_gens l s).
+Proof. intros l s H. ds s. exact H. Qed.
+
+Lemma on_lookup_Inv : forall rid r s, Inv s -> Inv (fst (on_lookup rid r s)).
+Proof.
+  intros rid r s H. unfold on_lookup. apply with_gen_Inv; auto. intros g rest T.
+  pose proof (take_gen_J _ _ _ _ (i_core _ H) T) as (J1 & N1 & NP).
+  assert (Ag : adv g = false).
+  { apply take_first_cnt with (p := adv) in T. destruct T as (T & _). unfold awaits in T. unfold adv. destruct (g_ph g); auto; discriminate. }
+  rewrite Ag in J1. pose proof (set_gens_stab rest s (i_stab _ H)) as St.
+  assert (NP' : start_d (set_gens rest s) <> None \/ stopping (set_gens rest s) = true) by (ds s; exact NP).
+  destruct r as [| |k].
+  - unfold fresh_rid. cbn [fst].
+    apply (add_gen_Inv (g_id g) false); auto.
+    + eapply Jcore_frame; [|exact J1]. ds s. frame.
+    + ds s. exact St.
+    + cbn. discriminate.
+    + intros E. apply N1. ds s. exact E.
+  - apply (coord_retry_end_Inv _ _ _ J1 St).
+  - destruct k; try apply (coord_retry_end_Inv _ _ _ J1 St); apply (gen_fail_Inv _ _ _ J1 St NP').
+Qed.
